@@ -226,6 +226,7 @@ func run(args []string) error {
 		nl = 1
 	}
 	runLoops(r, nl, o, hist, caseJSON)
+	runTruncate(r, nl, o, hist, caseJSON)
 	zze := "Z * Z * res (Z * error)"
 	o.Def("cases_add64", zze, add64)
 	o.Def("cases_mul64", zze, mul64)
